@@ -11,7 +11,6 @@ sys.path.insert(0, VERIF)
 ALL = ["C%02d" % i for i in range(1, 18)]
 
 NOT_APPLICABLE = {
-    "C01": "Semantic equivalence of two semantics over all programs x all inputs: no clause is visible in the shape of the code without fixing the meaning of every gate network (translation validation / proof are other families). Its structural preconditions are decided under C02, C14, C15, C03, C06.",
 }
 PENDING = "rules for this property are designed (DESIGN.md section 4) but not implemented yet in this framework; not claimed until they exist, pass self-validation and are quiet or triaged on the pinned tree"
 
